@@ -207,7 +207,7 @@ def s_range(ctx, rid, fx, cls, reg):
                 T = lin.linform(e.comparators[0])
             elif norm(e.comparators[0]) == reg:
                 T = lin.linform(e.left)
-                op0 = {ast.Lt: ast.Gt, ast.LtE: ast.GtE, ast.Gt: ast.Lt, ast.GtE: ast.LtE}.get(op0)
+                op0 = {ast.Lt: ast.Gt, ast.LtE: ast.GtE, ast.Gt: ast.Lt, ast.GtE: ast.LtE}.get(op0, op0)
             else:
                 continue
             if reg in T:
